@@ -24,6 +24,10 @@ use super::{
 #[cfg(feature = "concurrent")]
 const MIN_CONCURRENT_DOMAIN_SIZE: usize = 8192;
 
+/// Smallest fragment ConstraintEvaluationTable::fragments() accepts.
+#[cfg(feature = "concurrent")]
+const MIN_FRAGMENT_SIZE: usize = 16;
+
 // DEFAULT CONSTRAINT EVALUATOR
 // ================================================================================================
 
@@ -94,7 +98,10 @@ where
 
         #[cfg(feature = "concurrent")]
         let num_fragments = if domain.ce_domain_size() >= MIN_CONCURRENT_DOMAIN_SIZE {
-            rayon::current_num_threads().next_power_of_two()
+            core::cmp::min(
+                rayon::current_num_threads().next_power_of_two(),
+                domain.ce_domain_size() / MIN_FRAGMENT_SIZE,
+            )
         } else {
             1
         };
